@@ -298,6 +298,16 @@ func Yield() {
 	s.yield()
 }
 
+// OthersEnabled reports whether a thread other than the running one could run now.
+func (s *Sched) OthersEnabled() bool {
+	for _, t := range s.threads {
+		if t != s.cur && t.enabled() {
+			return true
+		}
+	}
+	return false
+}
+
 // Await blocks the calling thread until pred holds (evaluated at scheduling points; pred must only read harness state).
 func Await(pred func() bool) {
 	s := S
